@@ -31,7 +31,7 @@ PLAN = {"quick": {"shards": 16, "cases": 720, "timeout": 900}, "thorough": {"sha
 FLOORS = {"quick": {"distinct_nontrivial": 150, "TraceSymbolTable.invariant": 3000, "add_symbols.post": 1500, "histories": 250, "loads": 80,
                     "rows_decoded": 10000, "delayed_pool_loads": 15, "incremental_histories": 25, "digest_sets": 6, "digest_runs": 36,
                     "distinct_symbol_orderings": 12, "int8_boundary_loads": 10, "pool_loads_with_more_files_than_workers": 5,
-                    "incremental_loads_of_subset_vocabularies": 8, "view_checks": 400, "codec_checks": 300, "codec_frames_str": 100, "codec_frames_object": 100},
+                    "incremental_loads_of_subset_vocabularies": 8, "read_only_analyses_on_loaded_table": 300, "view_checks": 400, "codec_checks": 300, "codec_frames_str": 100, "codec_frames_object": 100},
           "thorough": {"distinct_nontrivial": 2000, "TraceSymbolTable.invariant": 40000, "add_symbols.post": 20000, "histories": 3000, "loads": 1000,
                        "rows_decoded": 150000, "delayed_pool_loads": 200, "incremental_histories": 300, "digest_sets": 40, "digest_runs": 400,
                        "distinct_symbol_orderings": 40, "int8_boundary_loads": 100, "pool_loads_with_more_files_than_workers": 40,
@@ -480,6 +480,33 @@ def run_load(case, ctx, res) -> None:  # noqa: ANN001
         ix = t.symbol_table.get_sym_id_map()
         if len(ix) != len(st) or any(ix.get(s) != i for i, s in enumerate(st)):
             res.bad("global-table-bijection", "global symbol table and index are not inverse of each other after loading")
+        elif t.is_parsed:
+            # read-only analyses must leave the table as it is (they read it through get_sym_id_map(), the live index)
+            from hta.trace_analysis import TraceAnalysis
+            ta = TraceAnalysis.__new__(TraceAnalysis)
+            ta.t = t
+            before_table, before_index = list(st), dict(ix)
+            ranks_ = t.get_ranks()
+            for nm, call in (("get_gpu_kernels_with_user_annotations", lambda: [ta.get_gpu_kernels_with_user_annotations(r_) for r_ in ranks_]),
+                             ("get_gpu_user_annotation_breakdown", lambda: ta.get_gpu_user_annotation_breakdown(visualize=False)),
+                             ("get_temporal_breakdown", lambda: ta.get_temporal_breakdown(visualize=False)),
+                             ("get_idle_time_breakdown", lambda: ta.get_idle_time_breakdown(ranks=ranks_, visualize=False)),
+                             ("get_cuda_kernel_launch_stats", lambda: ta.get_cuda_kernel_launch_stats(ranks=ranks_, visualize=False)),
+                             ("get_queue_length_time_series", lambda: ta.get_queue_length_time_series(ranks_))):
+                try:
+                    call()
+                except drv.ContractBroken as e:
+                    res.bad("table-unchanged-by-analyses", f"{nm}: {e}")
+                    break
+                except Exception:  # noqa: BLE001  (their results belong to other properties; arbitrary G-struct traces may be outside their regime)
+                    pass
+                res.counters["read_only_analyses_on_loaded_table"] += 1
+                now_table, now_index = t.symbol_table.sym_table, t.symbol_table.sym_index          # attributes: no contract in the way
+                if list(now_table) != before_table or dict(now_index) != before_index:
+                    added = {k: v for k, v in now_index.items() if before_index.get(k) != v}
+                    res.bad("table-unchanged-by-analyses", f"{nm} changed the symbol table: index entries added / changed {core.short(added, 200)}; "
+                            f"table {len(before_table)} -> {len(now_table)} symbols, index {len(before_index)} -> {len(now_index)}")
+                    break
         res.nontrivial = len(models) >= 2
         res.sample = {"mode": mode, "order": case["order"], "ranks": len(models), "global_symbols": len(st), "big_vocab": case["big_vocab"]}
     finally:
